@@ -1,5 +1,7 @@
 
 import Ecal.Lemmas.CascadeLive
+import Ecal.Lemmas.CascadePool
+import Ecal.Props.C09
 import Ecal.Gen.C02
 /-!
 # C02 — waiting on an event returns after its whole cascade, with exactly its errors
@@ -982,6 +984,144 @@ example : wExec.SchedFairFrom 9 ∧ wExec.PoolStartsFrom 9 ∧ wExec.AddsStopAt 
       rw [hs]; rfl
     · exfalso
       exact wExec_no_queued_after_13 n (by omega) hq
+
+/-! ### the pool side of fairness, from C09's theorem
+
+`Ecal.Pool` (C09) models the thread pool step by step (per-worker program counters, the FIFO
+queue, calls in flight); `Conc` abstracts it to "a queued task can be popped by a free worker". The
+two are tied here by a COUPLING of executions — the precisely typed statement of what a refinement
+between the two models has to deliver — and `PoolStartsFrom` is then DERIVED from
+`Ecal.Props.C09.fair_queued_task_started` (machine-checked use of C09's theorem). What is not
+proved is that the two executions of the real system are coupled (a product model of `Ecal.Pool` and
+`Conc` whose projections they are): the coupling is a hypothesis. -/
+
+/-- the coupling of a cascade-level execution `X` with a pool-level execution `Y` of the same run,
+    tick by tick: (1) whenever a task of some cascade is queued in `X`, the pool's queue in `Y` is
+    not empty (`TaskQueue.Push` inside `AddTask`: the pool's queue IS the cascades' queued tasks);
+    (2) a `Pop` taken in `Y` at a tick is the pop of a queued cascade task in `X` at that tick (the
+    task queue hands out a queued task); (3) the pool always has a live worker (it is not resized
+    to zero / joined while cascades run — C02's standing assumption). Only push/pop matter: resize
+    and join events of `Ecal.Pool` are excluded by `CallsStopAt` where the coupling is used. -/
+structure PoolCoupling (X : Exec) (Y : Ecal.Pool.Exec) : Prop where
+  queued : ∀ n, (X.C n).taskQueued → (Y.C n).queue ≠ []
+  pop    : ∀ n, Y.took Ecal.Pool.isPop n → X.tookPop n
+  live   : ∀ n, 0 < (Y.C n).live
+
+/-- non-vacuity of `PoolCoupling`: a coupled pair (Lemmas/CascadePool.lean) — cascade level `cX`
+    (one root, one task, one worker: pushed at tick 2, popped at tick 3, run to the end) and pool level
+    `cY` (`Ecal.Pool`: the worker passes its kill check, `AddTask` pushes at tick 2, the worker pops
+    at tick 3). The task is queued at the cascade level exactly when the pool's queue holds it, the
+    pool's only `Pop` is the cascade's pop at the same tick, the pool keeps its worker. -/
+example : PoolCoupling cX Ecal.Pool.cY ∧ (cX.C 3).taskQueued ∧ Ecal.Pool.cY.took Ecal.Pool.isPop 3 := by
+  refine ⟨⟨?_, ?_, Ecal.Pool.cY_live⟩, ?_, ?_⟩
+  · intro n hq
+    rw [cX_queued_only_at_3 n hq]
+    exact Ecal.Pool.cY_queue_at_3
+  · intro n hp
+    rw [Ecal.Pool.cY_pop_only_at_3 n hp]
+    exact cX_pop_at_3
+  · exact queued_of_pop_enabled (r := 0) (w := 0) (i := 0) (by
+      obtain ⟨r, w, i, he, hs⟩ := cX_pop_at_3
+      have : cX.ev 3 = some (.at 0 (.pop 0 0)) := rfl
+      rw [this] at he; cases he
+      exact hs)
+  · exact ⟨.pop 0 1, rfl, rfl, by decide⟩
+
+/-- **the pool side of fairness follows from C09**: if the cascade-level execution `X` is coupled
+    with a pool-level execution `Y` that is fair in C09's sense (`Ecal.Pool.Exec.Fair`: an enabled
+    pool-internal event — worker steps, the rest of calls in flight, returns of running tasks — is
+    eventually followed by one) and makes no new pool call from tick `N` on, then `X.PoolStartsFrom N`:
+    every queued task is eventually followed by a pop. Proof: `Ecal.Props.C09.fair_queued_task_started`
+    (= `no_stuck_task` + `pop_within_bound`) applied at every tick `n ≥ N`. -/
+theorem poolStartsFrom_of_C09 {X : Exec} {Y : Ecal.Pool.Exec} (hc : PoolCoupling X Y) (hf : Y.Fair)
+    {N : Nat} (hN : Y.CallsStopAt N) : X.PoolStartsFrom N := by
+  intro n hn hq
+  have hNn : Y.CallsStopAt n := fun k hk e he => hN k (by omega) e he
+  obtain ⟨m, hm, h⟩ := Ecal.Props.C09.fair_queued_task_started Y hf hNn (hc.queued n hq)
+  rcases h with h | h
+  · exact ⟨m, hm, Or.inl (hc.pop m h)⟩
+  · have := hc.live m
+    omega
+
+/-- the coupling reduced to what a step-level simulation for push/pop has to deliver FROM tick `N` on:
+    at `N` the pool's queue holds as many tasks as the cascades have queued; from then on a `Pop` is
+    taken at the pool level exactly at the ticks at which a cascade task is popped; the pool keeps a
+    live worker. (The per-step part of the simulation is proved: `queue_tracks_queued`.) -/
+structure PoolSyncFrom (X : Exec) (Y : Ecal.Pool.Exec) (N : Nat) : Prop where
+  start : (Y.C N).queue.length = (X.C N).queuedCount
+  pops  : ∀ n, N ≤ n → (Y.took Ecal.Pool.isPop n ↔ X.tookPop n)
+  live  : ∀ n, N ≤ n → 0 < (Y.C n).live
+
+/-- **the proved direction of the simulation, queue component**: projecting a `Conc` state to the
+    number of its queued tasks (`Conc.queuedCount`) and a pool state to the length of its queue, every
+    step of either model moves its projection the same way — +1 for a push (`addEvent _ true _` /
+    `aPush`), −1 for a pop, 0 for every other event (`conc_queuedCount_step`, `Ecal.Pool.queue_length_step`,
+    all events of both models, no resize/join restriction needed for this component). Hence, once no
+    work is added / no pool call is made after `N` and the pops are synchronised, the pool's queue
+    length equals the number of queued cascade tasks at every tick `n ≥ N`. -/
+theorem queue_tracks_queued {X : Exec} {Y : Ecal.Pool.Exec} {N : Nat} (hsync : PoolSyncFrom X Y N)
+    (ha : X.AddsStopAt N) (hc : Y.CallsStopAt N) :
+    ∀ n, N ≤ n → (Y.C n).queue.length = (X.C n).queuedCount := by
+  intro n hn
+  obtain ⟨d, rfl⟩ := Nat.exists_eq_add_of_le hn
+  induction d with
+  | zero => simpa using hsync.start
+  | succ d ih =>
+    have hprev := ih (by omega)
+    have hx := exec_queued_tick X ha (n := N + d) (by omega)
+    have hy := Ecal.Pool.exec_queue_tick Y hc (n := N + d) (by omega)
+    have hiff := hsync.pops (N + d) (by omega)
+    rw [show N + (d + 1) = N + d + 1 by omega]
+    by_cases hp : X.tookPop (N + d)
+    · have h1 := hx.1 hp
+      have h2 := hy.1 (hiff.mpr hp)
+      omega
+    · have h1 := hx.2 hp
+      have h2 := hy.2 (fun h => hp (hiff.mp h))
+      omega
+
+/-- non-vacuity of `PoolSyncFrom` / `queue_tracks_queued`: the coupled pair `cX`/`cY` from tick 3 on
+    (one task queued on both sides at tick 3, popped on both sides at tick 3, nothing added later) -/
+example : PoolSyncFrom cX Ecal.Pool.cY 3 ∧ cX.AddsStopAt 3 ∧ Ecal.Pool.cY.CallsStopAt 3 :=
+  ⟨⟨by rw [Ecal.Pool.cY_queue_length_at_3, cX_queuedCount_at_3],
+    fun n _ => ⟨fun h => by rw [Ecal.Pool.cY_pop_only_at_3 n h]; exact cX_pop_at_3,
+                fun h => by rw [cX_tookPop_only_at_3 n h]; exact Ecal.Pool.cY_took_pop_3⟩,
+    fun n _ => Ecal.Pool.cY_live n⟩, cX_addsStop, Ecal.Pool.cY_callsStop⟩
+
+/-- **the pool side of fairness from C09, with the queue tracked by the simulation**: like
+    `poolStartsFrom_of_C09`, but the hypothesis "a queued cascade task ⇒ the pool's queue is non-empty"
+    is no longer assumed at every tick — it follows from `queue_tracks_queued` given the equality at
+    tick `N` and synchronised pops. -/
+theorem poolStartsFrom_of_C09_sync {X : Exec} {Y : Ecal.Pool.Exec} {N : Nat} (hsync : PoolSyncFrom X Y N)
+    (hf : Y.Fair) (hc : Y.CallsStopAt N) (ha : X.AddsStopAt N) : X.PoolStartsFrom N := by
+  intro n hn hq
+  have hlen := queue_tracks_queued hsync ha hc n hn
+  have hpos := queuedCount_pos_of_taskQueued hq
+  have hne : (Y.C n).queue ≠ [] := by
+    intro h
+    rw [h] at hlen
+    simp at hlen
+    omega
+  have hNn : Y.CallsStopAt n := fun k hk e he => hc k (by omega) e he
+  obtain ⟨m, hm, h⟩ := Ecal.Props.C09.fair_queued_task_started Y hf hNn hne
+  rcases h with h | h
+  · exact ⟨m, hm, Or.inl ((hsync.pops m (by omega)).mp h)⟩
+  · have := hsync.live m (by omega)
+    omega
+
+/-- **the wait returns — fairness traced back to its sources**: scheduler fairness for the non-pop
+    engine steps of the cascades (`SchedFairFrom`, assumed), a coupled pool execution that is fair in
+    C09's sense and makes no new call after `N` (the pop side is then C09's theorem), no work added
+    after `N`, all monitors handed over at `N` ⇒ every cascade completes: every waiter released with
+    an exact report, every registered finish handler run once. -/
+theorem wait_returns_with_C09_pool (X : Exec) (Y : Ecal.Pool.Exec) {N : Nat} (hs : X.SchedFairFrom N)
+    (hc : PoolCoupling X Y) (hf : Y.Fair) (hY : Y.CallsStopAt N) (ha : X.AddsStopAt N) (hN : (X.C N).allHanded) :
+    ∃ n, N ≤ n ∧ ∀ r v, (X.C n).view r = some v →
+      (∀ m ∈ v.mons, m.phase.finished = true) ∧ v.posted = 1 ∧
+      (v.waiting = true → v.released = 1 ∧ ((step v .waitReturns).isSome = true ∨ v.waitReturned = true) ∧
+         allErrors v = expectedReport v) ∧
+      (v.handlerReg = true → v.handlerCalls = 1) :=
+  wait_returns_scheduler_and_pool X hs (poolStartsFrom_of_C09 hc hf hY) ha hN
 
 /-- **non-vacuity witness of the liveness theorems** (`fair_run_reaches_quiescence`,
     `wait_returns_fair`, `wait_returns_fair_from`): a concrete, NON-STUTTERING fair execution.
